@@ -16,17 +16,19 @@ PRELOAD = ["dask.array"]
 LEVEL = "exploration"
 RULE = (
     "enum: shapes (4,), (5,), (3,2) (thorough also (6,), (4,3), (2,2,3)) under ALL chunkings x two data sets (int64 with "
-    "many ties; float64 with one NaN) x every operation of the statement (sum prod min max any all mean var std moment, "
+    "many ties; float64 with one NaN, for the nan-arg/nanmin/nanmax/nanmean/nansum operations on 2-d shapes also with an all-NaN "
+    "column) x every operation of the statement (sum prod min max any all mean var std moment, "
     "nan-variants, argmin/argmax/nanargmin/nanargmax, cumsum/cumprod/nancumsum/nancumprod sequential and blelloch, "
     "topk/argtopk +-k, median/nanmedian/quantile) x every axis selection the operation accepts (None, each int, every "
     "tuple) x keepdims, each evaluated for split_every in {None, 2, 3, {axis: 2}}; random: arrays of 1-3 dims (sides 1..7; "
     "dtypes bool/int32/int64/uint8/float32/float64; NaN/inf/-0.0 injected; random chunkings, ~10% with explicit zero-size "
-    "chunks as a separate stratum), random op/axis/keepdims/ddof/order/k/q/method and two different split_every values "
+    "chunks as a separate stratum; for nan-operations sometimes an all-NaN hyperplane), random op/axis/keepdims/ddof/order/k/q/"
+    "method and two different split_every values "
     "whose results must also agree with each other. Oracle: the NumPy function on the concatenated data: exact for "
     "min/max/any/all/arg*/topk/median/quantile and integer data, summation-order tolerance (vf.arrays.sum_tolerance; "
     "squared scale for var/moment, std compared through its square) for float sums/means/variances/products/scans; same "
     "dtype and shape; lazy shape/dtype equal the computed ones; arg*: the returned index must be NumPy's (first occurrence "
-    "in C order); argtopk: values at the returned indices; if NumPy raises (empty / all-NaN) dask must raise too. "
+    "in C order); argtopk: values at the returned indices; if NumPy raises (all-NaN slice) dask must raise too. "
     "Non-trivial: a reduced/scanned axis is split into >=3 chunks of unequal sizes including a chunk of size 0 or 1 and "
     "split_every=2 (or {axis: 2}) forces >=2 tree levels."
 )
@@ -284,6 +286,7 @@ def sig_of(case, x=None):
         family=FAMILY[case["op"]],
         zero_chunk_on_reduced_axis=zero_chunk_on_reduced_axis(case),
         axis_none=case["axis"] is None,
+        multi_axis=isinstance(case["axis"], list),
         arg_axis_none_multichunk=arg_axis_none_multichunk(case),
         # stratum: an explicit zero-size chunk on any axis (an empty block exists)
         zero_chunk=A.has_zero_chunk(case["array"]["chunks"]),
